@@ -44,7 +44,7 @@ def check_C02(tier):
 GEN_ASSUME = [
     'configurations are driven through the public API (decay0_generator / genbbsub) with a deviate tape clamped to [1e-12, 1-1e-12]',
     'Q-values, level lists and EK are parsed from the reference Fortran text, level energies from the README appendix, published names from the resource .lis files (own parsers)',
-    'one shot may consume at most 20000 deviates (spike: mean 10-40, max < 300); exceeding it is reported as unbounded work',
+    'one shot may consume at most 20000 deviates (observed: mean 10-40, max < 300), times the full-range/window ratio when an energy window is set (rejection inside a window is slower by that factor); windows with a ratio above 200 are initialised but not sampled; exceeding the bound is reported as unbounded work',
 ]
 
 
